@@ -1,1 +1,233 @@
-// placeholder
+//! C02/C07/C08/C19 reference: sentence recogniser and field extractor, a hand-written scanner
+//! implementing the C08 statement literally.
+//!
+//! line   := [ '\' <bytes != '\'>* '\' ] ('!'|'$') body '*' hex+ <anything>
+//! body   := a a  a a a ',' num ',' num ',' [num] ',' chan ',' payload ',' fill
+//! num    := digit+ with value <= 255 (leading zeros allowed)      fill := num with value < 6
+//! chan   := <bytes != ','>*                                       payload := <bytes != ','>+
+//! hex+   := run of [0-9a-fA-F]; if longer than 8 only the first 8 are the value; value <= 0xFF
+
+#[derive(Clone, Debug, PartialEq, Eq)]
+pub struct Parsed<'a> {
+    pub talker: [u8; 2],
+    pub rtype: [u8; 3],
+    pub n: u8,
+    pub k: u8,
+    pub id: Option<u8>,
+    pub chan: &'a [u8],
+    pub payload: &'a [u8],
+    pub fill: u8,
+    /// value of the hex field after the structural '*'
+    pub transmitted: u8,
+    /// XOR of the bytes strictly between the start delimiter and the FIRST '*'
+    pub xor: u8,
+    /// a '*' occurs inside the address, channel or payload field (unjudged zone U1)
+    pub embedded_star: bool,
+}
+
+impl<'a> Parsed<'a> {
+    pub fn checksum_ok(&self) -> bool {
+        self.xor == self.transmitted
+    }
+    pub fn talker_name(&self) -> &'static str {
+        match &self.talker {
+            b"AB" => "AB",
+            b"AD" => "AD",
+            b"AI" => "AI",
+            b"AN" => "AN",
+            b"AR" => "AR",
+            b"AS" => "AS",
+            b"AT" => "AT",
+            b"AX" => "AX",
+            b"BS" => "BS",
+            b"SA" => "SA",
+            _ => "??",
+        }
+    }
+    pub fn report_name(&self) -> &'static str {
+        match &self.rtype {
+            b"VDM" => "VDM",
+            b"VDO" => "VDO",
+            _ => "???",
+        }
+    }
+    /// optional channel: first byte of the channel field, as a character
+    pub fn chan_char(&self) -> Option<char> {
+        self.chan.first().map(|&b| b as char)
+    }
+}
+
+/// digit+ with value <= 255; returns (value, rest)
+fn num(s: &[u8]) -> Option<(u8, &[u8])> {
+    let nd = s.iter().take_while(|c| c.is_ascii_digit()).count();
+    if nd == 0 {
+        return None;
+    }
+    let mut v: u32 = 0;
+    for &c in &s[..nd] {
+        v = v * 10 + (c - b'0') as u32;
+        if v > 255 {
+            return None;
+        }
+    }
+    Some((v as u8, &s[nd..]))
+}
+
+fn comma(s: &[u8]) -> Option<&[u8]> {
+    if s.first() == Some(&b',') {
+        Some(&s[1..])
+    } else {
+        None
+    }
+}
+
+/// bytes up to (not including) the next ','; None if there is no ','
+fn until_comma(s: &[u8]) -> Option<(&[u8], &[u8])> {
+    let p = s.iter().position(|&c| c == b',')?;
+    Some((&s[..p], &s[p + 1..]))
+}
+
+/// `None` = the line does not have the sentence shape (must be rejected).
+pub fn recognise(line: &[u8]) -> Option<Parsed<'_>> {
+    let mut s = line;
+    // optional tag block
+    if s.first() == Some(&b'\\') {
+        let close = s[1..].iter().position(|&c| c == b'\\')?; // unterminated => reject
+        s = &s[1 + close + 1..];
+    }
+    match s.first() {
+        Some(b'!') | Some(b'$') => s = &s[1..],
+        _ => return None,
+    }
+    let after_delim = s;
+    // there must be a '*' somewhere after the delimiter
+    let first_star = after_delim.iter().position(|&c| c == b'*')?;
+    if s.len() < 5 {
+        return None;
+    }
+    let talker = [s[0], s[1]];
+    let rtype = [s[2], s[3], s[4]];
+    s = &s[5..];
+    s = comma(s)?;
+    let (n, r) = num(s)?;
+    s = comma(r)?;
+    let (k, r) = num(s)?;
+    s = comma(r)?;
+    // optional sequence id
+    let id = match num(s) {
+        Some((v, r)) => {
+            s = r;
+            Some(v)
+        }
+        None => None,
+    };
+    s = comma(s)?;
+    let (chan, r) = until_comma(s)?;
+    s = r;
+    let (payload, r) = until_comma(s)?;
+    s = r;
+    if payload.is_empty() {
+        return None;
+    }
+    let (fill, r) = num(s)?;
+    if fill >= 6 {
+        return None;
+    }
+    s = r;
+    if s.first() != Some(&b'*') {
+        return None;
+    }
+    let star_pos = after_delim.len() - s.len();
+    s = &s[1..];
+    let nh = s.iter().take_while(|c| c.is_ascii_hexdigit()).count();
+    if nh == 0 {
+        return None;
+    }
+    let mut v: u64 = 0;
+    for &c in &s[..nh.min(8)] {
+        v = v * 16 + (c as char).to_digit(16).unwrap() as u64;
+    }
+    if v > 0xff {
+        return None;
+    }
+    let xor = after_delim[..first_star].iter().fold(0u8, |a, &b| a ^ b);
+    Some(Parsed {
+        talker,
+        rtype,
+        n,
+        k,
+        id,
+        chan,
+        payload,
+        fill,
+        transmitted: v as u8,
+        xor,
+        embedded_star: first_star != star_pos,
+    })
+}
+
+/// Ingredients of a sentence; `render` produces the line with a correct (or chosen) checksum.
+#[derive(Clone, Debug)]
+pub struct Mk {
+    pub tag: Option<Vec<u8>>,
+    pub delim: u8,
+    pub addr: Vec<u8>,
+    pub n: Vec<u8>,
+    pub k: Vec<u8>,
+    pub id: Vec<u8>,
+    pub chan: Vec<u8>,
+    pub payload: Vec<u8>,
+    pub fill: Vec<u8>,
+}
+
+impl Mk {
+    pub fn new(n: u32, k: u32, id: &[u8], payload: &[u8], fill: u8) -> Mk {
+        Mk {
+            tag: None,
+            delim: b'!',
+            addr: b"AIVDM".to_vec(),
+            n: n.to_string().into_bytes(),
+            k: k.to_string().into_bytes(),
+            id: id.to_vec(),
+            chan: b"A".to_vec(),
+            payload: payload.to_vec(),
+            fill: vec![b'0' + fill],
+        }
+    }
+    pub fn body(&self) -> Vec<u8> {
+        let mut b = Vec::with_capacity(32 + self.payload.len());
+        b.extend_from_slice(&self.addr);
+        for f in [&self.n, &self.k, &self.id, &self.chan, &self.payload, &self.fill] {
+            b.push(b',');
+            b.extend_from_slice(f);
+        }
+        b
+    }
+    /// line with the checksum computed over the body
+    pub fn render(&self) -> Vec<u8> {
+        let body = self.body();
+        let x = body.iter().fold(0u8, |a, &b| a ^ b);
+        self.render_with(format!("*{:02X}", x).as_bytes())
+    }
+    /// line with a caller-chosen tail (everything from '*' on)
+    pub fn render_with(&self, tail: &[u8]) -> Vec<u8> {
+        let mut l = Vec::new();
+        if let Some(t) = &self.tag {
+            l.push(b'\\');
+            l.extend_from_slice(t);
+            l.push(b'\\');
+        }
+        l.push(self.delim);
+        l.extend_from_slice(&self.body());
+        l.extend_from_slice(tail);
+        l
+    }
+    pub fn xor(&self) -> u8 {
+        self.body().iter().fold(0u8, |a, &b| a ^ b)
+    }
+}
+
+/// Convenience: a valid single-line sentence around `payload`.
+pub fn sentence(n: u32, k: u32, id: &[u8], payload: &[u8], fill: u8) -> Vec<u8> {
+    Mk::new(n, k, id, payload, fill).render()
+}
